@@ -365,3 +365,57 @@ Definition flag_const (E : flagcls) (i : Z) : resz :=
   | FInt _ => Errz 5            (* int has no .value: AttributeError *)
   | FErr => Errz 3
   end.
+
+(* ------------------------------------------------------------------ specification-side predicates
+   (hypotheses of the round-trip theorems, as boolean functions so that instances can be computed) *)
+Definition disjb (o1 w1 o2 w2 : Z) : bool := (o1 + w1 <=? o2) || (o2 + w2 <=? o1).
+
+(* the fields named by ks exist and are pairwise non-overlapping *)
+Fixpoint keys_disjoint (l : layout) (ks : list Z) : bool :=
+  match ks with
+  | [] => true
+  | k :: r =>
+      match field_of l k with
+      | None => false
+      | Some (o, s) =>
+          forallb (fun k' => match field_of l k' with
+                             | None => false
+                             | Some (o', s') => disjb o (layout_size s) o' (layout_size s')
+                             end) r
+          && keys_disjoint l r
+      end
+  end.
+
+(* hereditarily: an initialiser whose mappings only name existing, pairwise non-overlapping fields *)
+Fixpoint init_ok (l : layout) (i : init) {struct i} : bool :=
+  match i with
+  | IVal _ => negb (is_layout l)
+  | IMap kvs =>
+      is_layout l && keys_disjoint l (map fst kvs) &&
+      forallb (fun kx => match field_of l (fst kx) with
+                         | Some (_, sub) => init_ok sub (snd kx)
+                         | None => false
+                         end) kvs
+  end.
+
+(* the sub-initialiser reached by a path of keys *)
+Fixpoint init_at (i : init) (p : list Z) : option init :=
+  match p with
+  | [] => Some i
+  | k :: r => match i with
+              | IMap kvs => match assoc k kvs with Some x => init_at x r | None => None end
+              | IVal _ => None
+              end
+  end.
+
+(* sum of the offsets of a chain of nested fields *)
+Definition chain_off (c : list (Z * Z)) : Z := fold_right (fun ow acc => fst ow + acc) 0 c.
+
+(* a field through which a view can be read like the constant: not a signed enumeration with a view class
+   (EnumView refuses the unsigned slice), and for IntEnum fields (no validation on the view side) the bits
+   are those of a member *)
+Definition view_ok_field (sub : layout) (bits : Z) : bool :=
+  match sub with
+  | ELeaf s vw ms => if vw then negb (sgn s) else memz bits ms
+  | _ => true
+  end.
